@@ -766,14 +766,25 @@ package router
 //@   modifies nothing
 //@   ensures (err == nil) == (s != nil)
 //@   ensures err == nil ==> s.r == r && s.l != nil && s.logger != nil
+//@   ghost nUcClose int = 0
+//@   oncall PacketConn.Close?: nUcClose = nUcClose + 1
 //@   ensures [C18:socket-released-when-listen-fails] gLErr != nil ==> err != nil && nTClose == 1
+// (a quic.Transport does not close a socket it was given - Conn: uc -, so the listener must do it itself)
+//@   ensures [C18:own-udp-socket-closed-when-listen-fails] gLErr != nil ==> nUcClose == 1
+//@   callsite go: [C18:listener-goroutine-owns-the-udp-socket] capturesVar(uc)
 //@   ensures [C18:bad-certificate-opens-nothing] gTls == nil ==> err != nil && nLP == 0
 //@   callsite makeTlsConfig: [C17:listener-requires-certificate] arg0 == &cfg.Tls && arg1 == true
 //@   callsite Listen?: [C17:handshake-with-the-verified-configuration] arg1 == gTls && gTls != nil
+// the listener goroutine: when the accept loop ends, the listener AND the UDP socket under it are closed
 //@ closure router.startQuicServer$1
 //@   props C18
 //@   requires s != nil && routerReady(s.r) && s.l != nil && s.logger != nil && l != nil
+//@   ghost nUcClose int = 0
+//@   ghost nLClose int = 0
+//@   oncall PacketConn.Close?: nUcClose = nUcClose + 1
+//@   oncall Listener.Close?: nLClose = nLClose + 1
 //@   modifies *
+//@   ensures [C18:no-socket-left-open] nLClose == 1 && nUcClose == 1
 // close runs closeImpl at most once (sync.Once); closeImpl calls every registered closer
 //@ func (r *router) close(err error)
 //@   trusted
